@@ -232,7 +232,7 @@ func whCoq(cs *whCase) string {
 		}
 		steps[i] = fmt.Sprintf("{| ws_op := %s; ws_obs := %s; ws_snaps := %s |}", op, obs, snaps)
 	}
-	return fmt.Sprintf("{| wc_E := 1000%%nat; wc_steps := [%s]; wc_final := {| sn_meta := %s; sn_vmeta := %s |} |}", strings.Join(steps, ";\n "), cs.final[0], cs.final[1])
+	return fmt.Sprintf("{| wc_E := defaultBundleEntriesPerFile; wc_steps := [%s]; wc_final := {| sn_meta := %s; sn_vmeta := %s |} |}", strings.Join(steps, ";\n "), cs.final[0], cs.final[1])
 }
 
 var whRepos = []string{"r", "r2", "r-x", "repo", "repo2"}
@@ -417,7 +417,7 @@ func whCreateRace(n int) (oks int) {
 
 func whProp(prop string) propFn {
 	return func(c *Ctx) {
-		c.Header = "From Coq Require Import List String NArith.\nFrom DM Require Import Model.Meta Model.ListCheck Model.RepoOps Model.WorldCheck.\nImport ListNotations.\nOpen Scope list_scope."
+		c.Header = "From Coq Require Import List String NArith.\nFrom DM Require Import Gen.Consts Model.Meta Model.ListCheck Model.RepoOps Model.WorldCheck.\nImport ListNotations.\nOpen Scope list_scope."
 		c.CaseTy = "wcase"
 		c.Report = map[string]string{"C08": "report08", "C09": "report09", "C10": "report10"}[prop]
 		c.PerFile = 2
